@@ -1035,8 +1035,11 @@ impl Compiler {
     fn compile_labeled(&mut self, labeled: &LabeledStatement) -> Result<(), JsError> {
         self.builder.set_span(labeled.span);
 
-        // Push loop context with label
+        // Push a context for the label itself: a target for `break L` / `continue L` only
         self.push_loop(Some(labeled.label.name.cheap_clone()));
+        if let Some(ctx) = self.loop_stack.last_mut() {
+            ctx.label_only = true;
+        }
 
         // Compile the body
         self.compile_statement_impl(&labeled.body)?;
